@@ -39,7 +39,7 @@ ID = "C15"
 LEAN_TARGETS = ["RV.C15.Props", "RV.C15.Audit"]
 AUDIT = "RV/C15/Audit.lean"
 DRIVER = "drv_c15"
-CASES = {"quick": 1300, "thorough": 30000, "search": 6000}
+CASES = {"quick": 1150, "thorough": 30000, "search": 6000}
 RULE = ("random SELECT queries (BGPs of 1-4 patterns over <=4 variables, joins of groups, UNION, OPTIONAL, FILTER, "
         "MINUS, BIND, VALUES, sub-SELECT, GRAPH, property paths, DISTINCT / ORDER BY / GROUP BY+COUNT) over 5-15 "
         "triples in 0-3 named graphs; each case poses the query in two or more ways the property calls equivalent "
@@ -141,6 +141,28 @@ class Gen:
     def bgp(self, lo=1, hi=3, paths=True):
         return {"k": "bgp", "ts": [self.tp(paths) for _ in range(self.rng.randint(lo, hi))]}
 
+    def multiroute(self):
+        """two joined groups over the same pair of variables, the second a path that usually holds by several
+        routes (`p/q` through several middle nodes, `p|q`, `p|p`): one operand binds both ends for the other"""
+        r = self.rng
+        a, b = r.sample(self.vars, 2)
+        p1, p2 = r.choice(self.preds), r.choice(self.preds)
+        path = r.choice([["/", p1, p2], ["|", p1, p2], ["|", p1, p1]])
+        plain = {"k": "grp", "g": {"k": "group", "els": [{"k": "bgp", "ts": [[a, r.choice(self.preds + [self.var()]), b]]}]}}
+        routed = {"k": "grp", "g": {"k": "group", "els": [{"k": "bgp", "ts": [[a, path, b]]}]}}
+        out = [plain, routed]
+        r.shuffle(out)
+        return out
+
+    def disjoint(self, kind):
+        """MINUS / OPTIONAL / FILTER NOT EXISTS over variables that occur nowhere else in the query"""
+        self.fresh += 1
+        m1, m2 = "?m%da" % self.fresh, "?m%db" % self.fresh
+        grp = {"k": "group", "els": [{"k": "bgp", "ts": [[m1, self.rng.choice(self.preds), m2]]}]}
+        if kind == "notexists":
+            return {"k": "filter", "e": ["notexists", grp]}
+        return {"k": kind, "g": grp}
+
     def term_or_var(self):
         r = self.rng
         return self.var() if r.random() < 0.6 else r.choice(self.subs + self.objs)
@@ -207,11 +229,11 @@ class Gen:
         if not els and n_extra == 0:
             n_extra = 1
         kinds = [("bgp", 2), ("grp", 3), ("union", 3), ("optional", 3), ("minus", 2), ("filter", 4), ("bind", 2),
-                 ("values", 2), ("sub", 3), ("graph", 3 if self.ds else 0)]
+                 ("values", 2), ("sub", 3), ("graph", 3 if self.ds else 0), ("multiroute", 1 if self.ok("path") else 0)]
         kinds = [(k, w) for k, w in kinds if w and self.ok(k)]
         for _ in range(n_extra):
             k = r.choices([k for k, _ in kinds], [w for _, w in kinds])[0]
-            if depth <= 0 and k in ("grp", "union", "optional", "minus", "sub", "graph"):
+            if depth <= 0 and k in ("grp", "union", "optional", "minus", "sub", "graph", "multiroute"):
                 k = "filter" if self.ok("filter") else "bgp"
             if k == "bgp":
                 els.append(self.bgp(1, 2))
@@ -222,7 +244,12 @@ class Gen:
             elif k == "optional":
                 els.append({"k": "optional", "g": self.group(depth - 1, True)})
             elif k == "minus":
-                els.append({"k": "minus", "g": self.group(depth - 1, True)})
+                if r.random() < 0.3:
+                    els.append(self.disjoint("minus"))
+                else:
+                    els.append({"k": "minus", "g": self.group(depth - 1, True)})
+            elif k == "multiroute":
+                els += self.multiroute()
             elif k == "filter":
                 els.append({"k": "filter", "e": self.expr()})
             elif k == "bind":
@@ -362,7 +389,7 @@ def gen_case(rng, tier, i):
     inside the worker from a seed (`materialize`) because choosing a query with a non-empty answer needs
     evaluations, which would serialise the run if done in the parent process."""
     stream = rng.choices(["rewrite", "init", "prepared", "store", "bgp", "frag", "sel", "nsctx"],
-                         [28, 11, 14, 15, 10, 9, 7, 8])[0]
+                         [28, 11, 14, 15, 10, 9, 7, 6])[0]
     if stream in ("bgp", "frag", "sel"):
         while True:
             try:
@@ -457,6 +484,11 @@ def _gen_case(rng, tier, i, stream):
         kinds = ["bgp_shuffle", "join_swap", "union_swap", "rename", "rename_local", "spell", "mix"]
         case["rw"] = [[k, rng.randrange(1 << 20)] for k in rng.sample(kinds, 4)] + [["mix", rng.randrange(1 << 20)]]
     elif stream == "init":
+        if rng.random() < 0.35:     # a part that shares no variable with the rest of the query
+            els = q["where"]["els"]
+            npat = len([e for e in els if e["k"] != "filter"])
+            kind = rng.choice(["minus", "minus", "optional", "notexists"])
+            els.insert(npat if kind != "notexists" else len(els), g.disjoint(kind))
         cand = sorted(outer_bgp_vars(q) - subselect_vars(q))
         if cand:
             subs, preds, objs = data_terms(data)
@@ -464,6 +496,18 @@ def _gen_case(rng, tier, i, stream):
             case["init"] = [rng.choice(cand), rng.choice([x for x in subs + preds + objs if x != "_n"] or ["a"])]
     elif stream == "prepared":
         case["data2"] = gen_data(rng, ds)
+        if not has_kind(q, {"minus", "optional", "sub", "exists", "notexists"}) or rng.random() < 0.25:
+            els = q["where"]["els"]
+            npat = len([e for e in els if e["k"] != "filter"])
+            kind = rng.choice(["minus", "optional", "sub", "exists"])
+            if kind == "minus":
+                els.insert(npat, {"k": "minus", "g": g.group(1, True)})
+            elif kind == "optional":
+                els.insert(npat, {"k": "optional", "g": g.group(1, True)})
+            elif kind == "sub":
+                els.insert(npat, {"k": "sub", "q": g.select(1)})
+            else:
+                els.append({"k": "filter", "e": [rng.choice(["exists", "notexists"]), g.group(1, True)]})
     elif stream == "store":
         case["split"] = gen_split(rng, len(data), rng.random() < 0.4)
     elif stream == "nsctx":
@@ -836,6 +880,20 @@ def build(data, kind="mem", ds=False, split=None, order_seed=None, agg_ids="fres
     return g
 
 
+def refill(g, rows, ds):
+    """replace the content of the graph OBJECT g by rows (same object, other data)"""
+    if ds:
+        for c in list(g.contexts()):
+            c.remove((None, None, None))
+        for s_, p_, o_, c in rows:
+            ctx = g.default_context if c == 0 else g.graph(TERMS[GRAPH_IRI[c]])
+            ctx.add((TERMS[s_], TERMS[p_], TERMS[o_]))
+    else:
+        g.remove((None, None, None))
+        for s_, p_, o_, _c in rows:
+            g.add((TERMS[s_], TERMS[p_], TERMS[o_]))
+
+
 class _FlakyError(Exception):
     pass
 
@@ -1114,6 +1172,30 @@ def run_impl(case):
                     viol.append("prepared: run %d of the prepared query (graph %s) gives %s, a freshly parsed one "
                                 "gives %s" % (k + 1, nm, _short(got), _short(want)))
                     break
+            # the same graph OBJECT with other data, and other initBindings from one run to the next
+            qvars = sorted(all_vars(q))
+            subs, _preds, objs = data_terms(data + case["data2"])
+            for rnd in range(2):
+                if viol:
+                    break
+                pool = data + case["data2"]
+                rows = rng.sample(pool, max(1, len(pool) // 2))
+                refill(gA, rows, ds)
+                stats["prep_mutated_graph"] = stats.get("prep_mutated_graph", 0) + 1
+                inits = [None]
+                if qvars:
+                    v = rng.choice(qvars)
+                    inits = [{v[1:]: TERMS[t]} for t in rng.sample(subs + objs, min(2, len(subs + objs)))] + [None]
+                    stats["prep_changing_init"] = stats.get("prep_changing_init", 0) + 1
+                for ib in inits:
+                    got = evaluate(gA, q, prepared=p, init=ib)
+                    want = evaluate(gA, q, init=ib)
+                    compared += 1
+                    if got != want:
+                        viol.append("prepared-mutated: after the graph object got other data (round %d), initBindings "
+                                    "%s: the prepared query gives %s, a freshly parsed one gives %s"
+                                    % (rnd + 1, ib, _short(got), _short(want)))
+                        break
 
     elif stream == "store":
         split = case["split"]
@@ -1136,7 +1218,7 @@ def run_impl(case):
             check(tag, evaluate(build(data, "agg", split=split), q),
                   "ReadOnlyGraphAggregate of %s members" % ("overlapping" if overlapping else "disjoint"))
             # members living in different stores, carrying the same graph name or not
-            for ids in ("stores", "same_iri", "same_bnode", "mixed"):
+            for ids in rng.sample(["stores", "same_iri", "same_bnode", "mixed"], 2):
                 stats["agg_ids_" + ids] = stats.get("agg_ids_" + ids, 0) + 1
                 check(tag + "-" + ids, evaluate(build(data, "agg", split=split, agg_ids=ids), q),
                       "ReadOnlyGraphAggregate of %s members in different stores (identifiers: %s)"
@@ -1196,7 +1278,8 @@ def run_impl(case):
         steps = [("A", None), ("B", None), ("A", None)]
         extra = [("A", NS2), ("B", NS), ("rebindA", None), ("A", None), ("prepB", None), ("B", None)]
         rng.shuffle(extra)
-        steps += extra[: rng.randint(2, len(extra))]
+        steps += extra[: rng.randint(2, 4)]
+        wants = {}      # the expanded query's answer depends on the graph and the namespace only
         for k, (who, ins) in enumerate(steps):
             if who == "rebindA":      # the same graph re-binds the prefix
                 bound["A"] = NS2 if bound["A"] == NS else NS
@@ -1216,7 +1299,9 @@ def run_impl(case):
                 ns = ins or bound[who]
                 got = evaluate(g, q, text=text, initNs=({"ux": URIRef(ins)} if ins else None))
                 how = "Graph.query(text%s) on graph %s" % (", initNs={ux: %s}" % ins if ins else "", who)
-            want = evaluate(g, q, text=full[ns])
+            if (id(g), ns) not in wants:
+                wants[(id(g), ns)] = evaluate(g, q, text=full[ns])
+            want = wants[(id(g), ns)]
             compared += 1
             stats["ns_steps"] = stats.get("ns_steps", 0) + 1
             if want[0] == "ok" and want[2]:
@@ -1578,6 +1663,9 @@ def _nested_expr_vars(group, depth=0):
         k = e["k"]
         if k in ("filter", "bind") and depth > 0:
             out |= all_vars(e["e"])
+        if k == "filter":       # groups nested inside an EXISTS pattern (its own filters see the outer row by design)
+            for g in _exists_groups(e["e"]):
+                out |= _nested_expr_vars(g, depth)
         if k in ("grp", "optional", "minus", "graph"):
             out |= _nested_expr_vars(e["g"], depth + 1)
         elif k == "union":
@@ -1730,7 +1818,110 @@ def _m_graph_var_nongraph(case, result):
             and _graph_var_hazard(case["q"], case["q"]))
 
 
-MATCHERS = {"init_nested_optional": _m_init_nested_optional, "graph_var_nongraph": _m_graph_var_nongraph,
+def _values_vars(node):
+    out = set()
+    if isinstance(node, dict):
+        if node.get("k") == "values":
+            out |= set(node["vs"])
+        for v in node.values():
+            out |= _values_vars(v)
+    elif isinstance(node, list):
+        for v in node:
+            out |= _values_vars(v)
+    return out
+
+
+def _subselect_local_vars(node):
+    """variables some sub-SELECT uses without projecting them"""
+    out = set()
+    if isinstance(node, dict):
+        if node.get("k") == "sub":
+            sq = node["q"]
+            if not (sq["proj"] is None and not sq["count"]):
+                out |= all_vars(sq) - set(select_columns(sq))
+        for v in node.values():
+            out |= _subselect_local_vars(v)
+    elif isinstance(node, list):
+        for v in node:
+            out |= _subselect_local_vars(v)
+    return out
+
+
+def _m_values_var_masked(case, result):
+    """C15-K6 (a manifestation of C04-K2 seen through C04-K1): a variable bound by a VALUES block is missing from
+    `_vars`, unless a sub-select elsewhere in the same operand happens to use the same name without projecting it
+    (its local variables are listed in `_vars`): MINUS / the OPTIONAL re-check then keep or drop the VALUES
+    binding depending on that name, so renaming the sub-select's local variable changes the answer."""
+    case = materialize(case)
+    if case["stream"] != "rewrite" or _tags(result) != {"rewrite-rename_local"}:
+        return False
+    q = case["q"]
+    return bool(_values_vars(q) & _subselect_local_vars(q)) and has_kind(q, {"minus", "optional"})
+
+
+def _optional_recheck_hazard(group, depth=0):
+    """a nested group with an OPTIONAL that mentions a variable the part of the group before it may bind but need
+    not (an earlier OPTIONAL, one UNION branch)"""
+    prefix = {"k": "group", "els": []}
+    for e in group["els"]:
+        k = e["k"]
+        if k == "optional" and depth > 0:
+            maybe = visible_vars(prefix) - certain_vars(prefix)
+            if all_vars(e["g"]) & maybe:
+                return True
+        subs = [e["g"]] if k in ("grp", "optional", "minus", "graph") else (e["gs"] if k == "union" else [])
+        if k == "sub":
+            subs = [e["q"]["where"]]
+        for g in subs:
+            if _optional_recheck_hazard(g, depth + 1):
+                return True
+        prefix["els"].append(e)
+    return False
+
+
+def _m_optional_recheck(case, result):
+    """C15-K7 (C04-K1, the OPTIONAL re-check form): `{ OPTIONAL {..?w..} OPTIONAL { ?w … } }` as right operand of a
+    lazy join whose left operand binds ?w: the no-match re-check of the second OPTIONAL keeps the outer ?w because
+    ?w is in `_vars` of the first OPTIONAL although that one did not match; other operand order: ?w free."""
+    case = materialize(case)
+    return (case["stream"] == "rewrite" and all(t.startswith("rewrite-") for t in _tags(result))
+            and _optional_recheck_hazard(case["q"]["where"]))
+
+
+def _values_scope_hazard(group, depth=0):
+    """a nested group that binds a variable by VALUES (directly) and uses it in a FILTER / BIND / MINUS of its own"""
+    if depth > 0:
+        vv = set()
+        for e in group["els"]:
+            if e["k"] == "values":
+                vv |= set(e["vs"])
+        if vv:
+            for e in group["els"]:
+                if e["k"] in ("filter", "bind") and all_vars(e["e"]) & vv:
+                    return True
+                if e["k"] == "minus" and all_vars(e["g"]) & vv:
+                    return True
+    for e in group["els"]:
+        k = e["k"]
+        subs = [e["g"]] if k in ("grp", "optional", "minus", "graph") else (e["gs"] if k == "union" else [])
+        if k == "sub":
+            subs = [e["q"]["where"]]
+        for g in subs:
+            if _values_scope_hazard(g, depth + 1):
+                return True
+    return False
+
+
+def _m_values_filter_pushed(case, result):
+    """C15-K8 (C04-K2): `{ VALUES (?z ..) {..} FILTER(..?z..) }` as right operand of a lazy join whose left operand
+    binds ?z: `_vars` of VALUES is empty, so the filter forgets the pushed-in ?z although the VALUES row binds it too;
+    with the operands swapped the filter sees it."""
+    case = materialize(case)
+    return (case["stream"] == "rewrite" and all(t.startswith("rewrite-") for t in _tags(result))
+            and _values_scope_hazard(case["q"]["where"]))
+
+
+MATCHERS = {"values_filter_pushed": _m_values_filter_pushed, "optional_recheck": _m_optional_recheck, "values_var_masked": _m_values_var_masked, "init_nested_optional": _m_init_nested_optional, "graph_var_nongraph": _m_graph_var_nongraph,
             "maybe_bound_filter": _m_maybe_bound_filter, "zero_path_nonnode": _m_zero_path_nonnode, "init_nested_expr": _m_init_nested_expr,
             # matchers of repaired defects (their witnesses must pass; kept for documentation)
             "fixed": lambda case, result: False}
